@@ -312,10 +312,11 @@ def r4_inverse(program, rep):
 def check(program, rep):
     program.module(MOD)
     folder = Folder(program)
-    r1_scalar(program, rep)
-    widths, bounds, fl, n_bits = r2_array(program, folder, rep)
-    r3_representable(program, folder, rep, widths, fl, n_bits)
-    r4_inverse(program, rep)
+    rep.guard("C16-R1", r1_scalar, program, rep)
+    widths, bounds, fl, n_bits = rep.guard(
+        "C16-R2", r2_array, program, folder, rep) or (None,) * 4
+    rep.guard("C16-R3", r3_representable, program, folder, rep, widths, fl, n_bits)
+    rep.guard("C16-R4", r4_inverse, program, rep)
     rep.floor("C16-R2", 18)
     return finish(rep, program, EXPLANATION, NOT_DECIDED,
                   trusted=["IEEE-754 double conversion of Python ints in the "
